@@ -5,6 +5,8 @@ Decides: the thresholds are the format's (C08-THR); wherever the writer clamps a
 value iff its own slot holds the sentinel (C08-PAIR); the end-of-directory ZIP64 records are written whenever a clamped EOCD field
 cannot hold its value and their contents/positions are right (C08-EOCD); the 4 GiB guards exist, are evaluated after accounting,
 and poison the writer (C08-GUARD); the ZIP64 record tables equal APPNOTE (C08-Z64REC)."""
+import re
+
 from engine.codec import Codec
 from rules.shared_zip64 import thr_rules, pair_rules, eocd_rules, guard_rules
 from rules.shared_codec import writer_table, reader_table
@@ -35,6 +37,10 @@ def run(ctx, rep):
     reader_table(facts, rep, "C08-Z64REC", facts.one(r"^spec::Zip64CentralDirectoryEndLocator::parse$"), "Z64LOC", spec, c)
     from rules.C03 import offset_rules
     offset_rules(facts, rep)           # reported as C08/C03-OFFSET: the ZIP64 locator is looked for where it lies (behind the comment-carrying end record)
+    # the ZIP64 serialisers themselves cannot fail on a value that needs them: their panic-capable / buffer-capacity sites (the fixed
+    # scratch buffer of the central ZIP64 record, index arithmetic) are part of this property's inventory
+    from rules.shared_panic import panic_rule, is_write_root
+    panic_rule(ctx, rep, "C08-PANIC", facts, is_write_root, only=lambda s_: re.search(r"zip64|write_central_directory_header|update_local_file_header|finalize", s_.key) is not None)
     rep.floor("C08-PAIR", 10)
     rep.floor("C08-EOCD", 12)
     rep.floor("C08-GUARD", 3)
